@@ -26,7 +26,7 @@ TRUSTED = [
     "the driver executes execArr (Array loop); execArr_eq proves it equal to the modelled fold of stores",
 ]
 ASSUMPTIONS = [
-    "cells are pairwise interior-disjoint cubes (AMR leaf tilings); cell values of the last layer are not NaN (the mask is taken from the last layer)",
+    "cells are pairwise interior-disjoint cubes (AMR leaf tilings)",
     "the basis handed to the kernel is orthonormal (C18)",
     "dx > 0, resolution >= 1, the default operation ('sum' of a single depth sample is the identity)",
     "tolerant lane: a pixel is asserted only when its sample point is further than 1e-9 cell sizes from every cell face, and a case is compared with the model only when no pre-selection decision is within 1e-9 (relative) of its threshold",
@@ -298,12 +298,9 @@ def evaluate(ctx, out, cases, sel, dist, prop=PROP):
                                 "spec_accept": spec.get("accept")})
         # ---- impl vs Spec
         viols, skipped = M.compare_spec(c, obs, impl, ans, lane)
-        nan_last = c["layers"][-1]["kind"] == "scalar" and any(v is None for v in c["layers"][-1]["vals"])
-        if nan_last:
-            # NaN values in the last layer mask the pixel in every layer (mask = isnan(binned[-1])): outside the claim
-            # (ASSUMPTIONS); the model mirrors it and is still compared below
-            out.extra["outside_claim_nan_in_last_layer"] = out.extra.get("outside_claim_nan_in_last_layer", 0) + 1
-            viols = []
+        if c["layers"][-1]["kind"] == "scalar" and any(v is None for v in c["layers"][-1]["vals"]):
+            # NaN values in the last layer: the pixel must still be masked exactly when no cell contains the point
+            dist["nan_in_last_layer"] = dist.get("nan_in_last_layer", 0) + 1
         if any(v is None for l in c["layers"] if l["kind"] == "scalar" for v in l["vals"]):
             dist["nan_cell_values"] = dist.get("nan_cell_values", 0) + 1
         if ans.get("err") == "noCells" and "raised" in impl:
@@ -430,10 +427,7 @@ def thread_lane(ctx, out, recs, dist):
                                 break
                         if bad:
                             break
-                    nan_last = c["layers"][-1]["kind"] == "scalar" and any(v is None for v in c["layers"][-1]["vals"])
-                    # NaN cell values in the last layer mask the pixel (outside the claim, as in the one-thread lane): on a face the
-                    # NaN-valued cell may be the one that is painted last
-                    if not bad and "modelAmbig" not in ans and not nan_last:       # (thick map without dx: the Spec samples other depths than the code)
+                    if not bad and "modelAmbig" not in ans:       # (thick map without dx: the Spec samples other depths than the code)
                         v, _ = M.compare_spec(c, rec["obs"], impl, ans, rec["lane"])
                         v0 = rec.get("violations") or []
                         if len(v) > len(v0):
